@@ -149,7 +149,11 @@ def check_case(ctx: Ctx, c: dict):
         tn, t0 = real_template(n), real_template(0)
         ctx.eq("template", {"k": "template", "layers": n}, hx(tn), d.ask(f"template {n}"))
         obj = build(desc)
-        en, e0 = obj.to_bytes(tn), obj.to_bytes(t0)
+        try:
+            en, e0 = obj.to_bytes(tn), obj.to_bytes(t0)
+        except Exception as e:  # the model has no error path here
+            ctx.mismatch("to_bytes raised", c, repr(e)[:200], "no error")
+            return
         ctx.eq("to_bytes with n layers", c, hx(en), d.ask(f"tobytes {n} {tok}"))
         _check_pair(ctx, d, c, n, en, e0, "to_bytes")
     elif k == "wrapsend":
@@ -173,9 +177,14 @@ def check_case(ctx: Ctx, c: dict):
                 obj.send(outn, tn, max_size=mxn, callback=lambda x: chunks.append(x))
             except ValueError:
                 rn = True
+            except Exception as e:
+                rn = True
+                ctx.mismatch("send raised something other than ValueError", c, repr(e)[:200], "ValueError or success")
             try:
                 obj.send(out0, t0, max_size=mx0)
             except ValueError:
+                r0 = True
+            except Exception:
                 r0 = True
         finally:
             if cleanup:
@@ -183,10 +192,7 @@ def check_case(ctx: Ctx, c: dict):
                 os.unlink(cleanup[1])
         model = d.ask(f"send {n} {mxn} {tok}")
         ctx.eq("send raises", c, rn, model == "err")
-        if (desc.get("f") or {}).get("medium") is None:
-            # chunking of the default medium is C05's correspondence (defect D1); here only the wrapping is at stake
-            ctx.count("K-stream-compare-left-to-C05(default medium)")
-        elif model != "err" and not rn:
+        if model != "err" and not rn:
             ctx.eq("command stream with n layers", c, hx(outn.getvalue()), "".join(model.split(" ")))
         if rn != r0:
             ctx.violation("the same payload budget is accepted with one template and rejected with the other", c,
